@@ -124,7 +124,16 @@ pub struct Opts {
     pub findings: Findings,
     /// Keep exploring deeper after a violation was found at some depth.
     pub continue_after_violation: bool,
+    /// Crash localisation: overwrite this file with the sequence about to be
+    /// executed (single-threaded re-run after the process died on a signal).
+    pub trace_file: Option<String>,
+    /// With `trace_file`: only leaves whose global sequence number lies in
+    /// [seq_from, seq_to] are executed.
+    pub seq_from: u64,
+    pub seq_to: u64,
 }
+
+static LEAF_SEQ: AtomicU64 = AtomicU64::new(0);
 
 #[derive(Clone, Debug)]
 pub struct Found {
@@ -256,6 +265,19 @@ pub fn run_one<H: Harness>(h: &H, cfg: &H::Cfg, toks: &[H::Tok], st: &mut Stats)
 
 fn leaf<H: Harness>(sh: &Shared<'_, H>, lo: &mut Local, cfg_idx: usize, toks: &[H::Tok], choices: &[u32]) {
     let cfg = &sh.sw.cfgs[cfg_idx];
+    if let Some(tf) = &sh.opts.trace_file {
+        let seq = LEAF_SEQ.fetch_add(1, Ordering::SeqCst);
+        if seq < sh.opts.seq_from {
+            return;
+        }
+        if seq > sh.opts.seq_to {
+            sh.stop.store(true, Ordering::SeqCst);
+            return;
+        }
+        let v = serde_json::json!({"seq": seq, "sweep": sh.sw.name, "cfg_index": cfg_idx, "cfg": format!("{:?}", cfg), "choices": choices,
+            "tokens": toks.iter().map(|t| format!("{:?}", t)).collect::<Vec<_>>()});
+        let _ = std::fs::write(tf, v.to_string());
+    }
     let mut st = Stats::default();
     let r = run_one(sh.sw.h, cfg, toks, &mut st);
     lo.evaluations += 1;
